@@ -19,34 +19,44 @@
 (*              (a gate inside the critical section)                           *)
 (*   Unlock, PoolPut   the deferred calls, in this order                       *)
 (*                                                                             *)
-(* The four BOOLEAN constants are TRUE for the real design; setting one to     *)
-(* FALSE gives a plausible wrong implementation, and TLC finds the violated    *)
-(* invariant (the orchestrator runs those as expected counterexamples, so the  *)
-(* invariants are known not to be vacuous).                                    *)
+(* A pooled item (bufferedTextHandler) is a pair: the buffer Handle reads      *)
+(* (hb) and the buffer its slog.TextHandler was created on and writes to (tb). *)
+(* They must stay the same buffer; a buffer that has held a large line stays   *)
+(* large (capacity is kept by Reset).                                          *)
+(*                                                                             *)
+(* The first four BOOLEAN constants are TRUE for the real design (RebindOnLarge *)
+(* is FALSE); flipping one gives a plausible wrong implementation, and TLC     *)
+(* finds the violated invariant (the orchestrator runs those as expected       *)
+(* counterexamples, so the invariants are known not to be vacuous).            *)
 EXTENDS Integers, Sequences, FiniteSets
 
 CONSTANTS NGates,          \* NGates[p]: LogValuer gates in the record of process p; NP = Len(NGates)
-          NBufs,           \* buffers that may ever be created
+          BigRec,          \* BigRec[p]: the text line of p's record is longer than the "large" mark
+          NBufs,           \* pooled items that may ever be created
           ResetOnGet,      \* reset() after Get
           PutAfterWrite,   \* Put deferred to the end of Handle (FALSE: Put right after rendering)
           WriteUnderLock,  \* the Write happens inside the critical section
-          SingleWrite      \* the line and its newline go out in one Write call
+          SingleWrite,     \* the line and its newline go out in one Write call
+          RebindOnLarge    \* reset() replaces a large buffer by a new one (the TextHandler keeps the old)
 
 NP == Len(NGates)
 Procs == 1..NP
-Bufs == 1..NBufs
+Bufs == 1..NBufs              \* pooled items; item i starts with buffer i
+Buffers == 1..(2 * NBufs)     \* buffer NBufs + i: the replacement a rebinding reset() gives item i
 
 NL == 0
 TLen(p) == ((p * 2) % 3) + 1                         \* 3, 2, 1, 3, ...: lines of different lengths
 Text(p) == [i \in 1..TLen(p) |-> p * 100 + i]        \* the text line of p's record, without newline
 
 VARIABLES pc, buf, g, msg, enc, chunks,   \* per process
-          free, created, arr, blen,       \* the pool and the buffers
+          free, created,                  \* the pool of items
+          hb, tb,                         \* per item: buffer Handle reads / buffer the TextHandler writes
+          arr, blen, large,               \* per buffer: backing array, length, has held a large line
           lock,                           \* 0 or the holder
           inWrite,                        \* processes inside w.Write
           stream                          \* everything written to w, in order
 
-vars == <<pc, buf, g, msg, enc, chunks, free, created, arr, blen, lock, inWrite, stream>>
+vars == <<pc, buf, g, msg, enc, chunks, free, created, hb, tb, arr, blen, large, lock, inWrite, stream>>
 
 Init ==
     /\ pc = [p \in Procs |-> "start"]
@@ -56,8 +66,10 @@ Init ==
     /\ enc = [p \in Procs |-> <<>>]
     /\ chunks = [p \in Procs |-> <<>>]
     /\ free = {} /\ created = {}
-    /\ arr = [b \in Bufs |-> <<>>]
-    /\ blen = [b \in Bufs |-> 0]
+    /\ hb = [i \in Bufs |-> i] /\ tb = [i \in Bufs |-> i]
+    /\ arr = [b \in Buffers |-> <<>>]
+    /\ blen = [b \in Buffers |-> 0]
+    /\ large = [b \in Buffers |-> FALSE]
     /\ lock = 0
     /\ inWrite = {}
     /\ stream = <<>>
@@ -70,46 +82,61 @@ PoolGet(p) ==
          /\ free' = free \ {b}
          /\ created' = created \cup {b}
     /\ pc' = [pc EXCEPT ![p] = "got"]
-    /\ UNCHANGED <<g, msg, enc, chunks, arr, blen, lock, inWrite, stream>>
+    /\ UNCHANGED <<g, msg, enc, chunks, hb, tb, arr, blen, large, lock, inWrite, stream>>
 
+(* reset(): truncate the buffer (capacity and backing array are kept). *)
 Reset(p) ==
     /\ pc[p] = "got"
-    /\ blen' = IF ResetOnGet THEN [blen EXCEPT ![buf[p]] = 0] ELSE blen
+    /\ LET i == buf[p] IN
+       IF RebindOnLarge /\ large[hb[i]]
+         THEN hb' = [hb EXCEPT ![i] = NBufs + i] /\ UNCHANGED blen
+         ELSE /\ blen' = IF ResetOnGet THEN [blen EXCEPT ![hb[i]] = 0] ELSE blen
+              /\ UNCHANGED hb
     /\ g' = [g EXCEPT ![p] = NGates[p]]
     /\ pc' = [pc EXCEPT ![p] = IF NGates[p] > 0 THEN "valuer" ELSE "torender"]
-    /\ UNCHANGED <<buf, msg, enc, chunks, free, created, arr, lock, inWrite, stream>>
+    /\ UNCHANGED <<buf, msg, enc, chunks, free, created, tb, arr, large, lock, inWrite, stream>>
 
 (* Leaving a LogValuer gate. *)
 Valuer(p) ==
     /\ pc[p] = "valuer"
     /\ g' = [g EXCEPT ![p] = @ - 1]
     /\ pc' = [pc EXCEPT ![p] = IF g[p] = 1 THEN "torender" ELSE "valuer"]
-    /\ UNCHANGED <<buf, msg, enc, chunks, free, created, arr, blen, lock, inWrite, stream>>
+    /\ UNCHANGED <<buf, msg, enc, chunks, free, created, hb, tb, arr, blen, large, lock, inWrite, stream>>
 
 (* bytes.Buffer.Write at the current length: overwrites what the backing array *)
 (* held there and extends it when needed.                                      *)
 WriteAt(a, n, s) == [i \in 1..(IF n + Len(s) > Len(a) THEN n + Len(s) ELSE Len(a)) |->
                         IF i > n /\ i <= n + Len(s) THEN s[i - n] ELSE a[i]]
 
+(* The TextHandler writes the line into ITS buffer; Handle then takes the      *)
+(* bytes of the item's buffer and cuts the newline off: msg[:len(msg)-1]       *)
+(* panics when that buffer is empty (the deferred Put still runs).             *)
 Render(p) ==
     /\ pc[p] = "torender"
-    /\ LET b == buf[p]
+    /\ LET i == buf[p]
+           t == tb[i]
            line == Text(p) \o <<NL>>
-       IN /\ arr' = [arr EXCEPT ![b] = WriteAt(arr[b], blen[b], line)]
-          /\ blen' = [blen EXCEPT ![b] = blen[b] + Len(line)]
-          /\ msg' = [msg EXCEPT ![p] = [b |-> b, n |-> blen[b] + Len(line) - 1]]
-          /\ IF PutAfterWrite
-               THEN UNCHANGED <<free, buf>>
-               ELSE free' = free \cup {b} /\ buf' = [buf EXCEPT ![p] = 0]
-    /\ pc' = [pc EXCEPT ![p] = "rendered"]
-    /\ UNCHANGED <<g, enc, chunks, created, lock, inWrite, stream>>
+           n == IF hb[i] = t THEN blen[t] + Len(line) ELSE blen[hb[i]]
+       IN /\ arr' = [arr EXCEPT ![t] = WriteAt(arr[t], blen[t], line)]
+          /\ blen' = [blen EXCEPT ![t] = blen[t] + Len(line)]
+          /\ large' = [large EXCEPT ![t] = @ \/ BigRec[p]]
+          /\ IF n = 0
+               THEN /\ pc' = [pc EXCEPT ![p] = "panicked"]
+                    /\ free' = free \cup {i} /\ buf' = [buf EXCEPT ![p] = 0]
+                    /\ UNCHANGED msg
+               ELSE /\ pc' = [pc EXCEPT ![p] = "rendered"]
+                    /\ msg' = [msg EXCEPT ![p] = [b |-> hb[i], n |-> n - 1]]
+                    /\ IF PutAfterWrite
+                         THEN UNCHANGED <<free, buf>>
+                         ELSE free' = free \cup {i} /\ buf' = [buf EXCEPT ![p] = 0]
+    /\ UNCHANGED <<g, enc, chunks, created, hb, tb, lock, inWrite, stream>>
 
 Lock(p) ==
     /\ pc[p] = "rendered"
     /\ lock = 0
     /\ lock' = p
     /\ pc' = [pc EXCEPT ![p] = "locked"]
-    /\ UNCHANGED <<buf, g, msg, enc, chunks, free, created, arr, blen, inWrite, stream>>
+    /\ UNCHANGED <<buf, g, msg, enc, chunks, free, created, hb, tb, arr, blen, large, inWrite, stream>>
 
 (* The pooled bytes are read here, not when msg was cut. *)
 Encode(p) ==
@@ -119,13 +146,13 @@ Encode(p) ==
           /\ chunks' = [chunks EXCEPT ![p] = IF SingleWrite THEN << e \o <<NL>> >> ELSE << e, <<NL>> >>]
     /\ lock' = IF WriteUnderLock THEN lock ELSE 0
     /\ pc' = [pc EXCEPT ![p] = "encoded"]
-    /\ UNCHANGED <<buf, g, msg, free, created, arr, blen, inWrite, stream>>
+    /\ UNCHANGED <<buf, g, msg, free, created, hb, tb, arr, blen, large, inWrite, stream>>
 
 WriteBegin(p) ==
     /\ pc[p] = "encoded"
     /\ inWrite' = inWrite \cup {p}
     /\ pc' = [pc EXCEPT ![p] = "writing"]
-    /\ UNCHANGED <<buf, g, msg, enc, chunks, free, created, arr, blen, lock, stream>>
+    /\ UNCHANGED <<buf, g, msg, enc, chunks, free, created, hb, tb, arr, blen, large, lock, stream>>
 
 WriteEnd(p) ==
     /\ pc[p] = "writing"
@@ -133,13 +160,13 @@ WriteEnd(p) ==
     /\ chunks' = [chunks EXCEPT ![p] = Tail(@)]
     /\ inWrite' = inWrite \ {p}
     /\ pc' = [pc EXCEPT ![p] = IF Len(chunks[p]) > 1 THEN "encoded" ELSE "written"]
-    /\ UNCHANGED <<buf, g, msg, enc, free, created, arr, blen, lock>>
+    /\ UNCHANGED <<buf, g, msg, enc, free, created, hb, tb, arr, blen, large, lock>>
 
 Unlock(p) ==
     /\ pc[p] = "written"
     /\ lock' = IF lock = p THEN 0 ELSE lock
     /\ pc' = [pc EXCEPT ![p] = "unlocked"]
-    /\ UNCHANGED <<buf, g, msg, enc, chunks, free, created, arr, blen, inWrite, stream>>
+    /\ UNCHANGED <<buf, g, msg, enc, chunks, free, created, hb, tb, arr, blen, large, inWrite, stream>>
 
 PoolPut(p) ==
     /\ pc[p] = "unlocked"
@@ -147,12 +174,12 @@ PoolPut(p) ==
          THEN free' = free \cup {buf[p]} /\ buf' = [buf EXCEPT ![p] = 0]
          ELSE UNCHANGED <<free, buf>>
     /\ pc' = [pc EXCEPT ![p] = "done"]
-    /\ UNCHANGED <<g, msg, enc, chunks, created, arr, blen, lock, inWrite, stream>>
+    /\ UNCHANGED <<g, msg, enc, chunks, created, hb, tb, arr, blen, large, lock, inWrite, stream>>
 
 Step(p) == \/ PoolGet(p) \/ Reset(p) \/ Valuer(p) \/ Render(p) \/ Lock(p) \/ Encode(p)
            \/ WriteBegin(p) \/ WriteEnd(p) \/ Unlock(p) \/ PoolPut(p)
 
-AllDone == \A p \in Procs : pc[p] = "done"
+AllDone == \A p \in Procs : pc[p] \in {"done", "panicked"}
 Next == (\E p \in Procs : Step(p)) \/ (AllDone /\ UNCHANGED vars)
 Spec == Init /\ [][Next]_vars /\ \A p \in Procs : WF_vars(Step(p))
 
@@ -183,7 +210,10 @@ BufExclusive ==
     /\ \A p, q \in Procs : (p # q /\ buf[p] # 0) => buf[p] # buf[q]
     /\ \A p \in Procs : buf[p] # 0 => buf[p] \notin free
 (* The bytes a process is going to encode belong to a buffer it still holds. *)
-MsgOwned == \A p \in Procs : pc[p] \in {"rendered", "locked"} => buf[p] = msg[p].b
+MsgOwned == \A p \in Procs : pc[p] \in {"rendered", "locked"} => (buf[p] # 0 /\ hb[buf[p]] = msg[p].b)
+(* The text handler of an item writes into the buffer Handle reads from. *)
+ItemsBound == \A i \in Bufs : hb[i] = tb[i]
+NoPanic == \A p \in Procs : pc[p] # "panicked"
 
 (* At most one process is inside w.Write, and it holds the mutex. *)
 OneWriter == Cardinality(inWrite) <= 1
@@ -194,6 +224,8 @@ LinesCorrect == \A i \in 1..Len(LinesOf(stream)) : \E p \in Procs : LinesOf(stre
 NoTornLine == SingleWrite => Rest(stream) = <<>>
 (* One line per record: none before its Write finished, exactly one afterwards. *)
 OneLinePerRecord == \A p \in Procs : LineCount(p) = (IF Wrote(p) THEN 1 ELSE 0)
+
+EveryRecordWritten == AllDone => \A p \in Procs : LineCount(p) = 1
 
 (* Every call returns. *)
 Termination == <>AllDone
